@@ -394,6 +394,26 @@ func ruleF3(c *Ctx) *RuleResult {
 			}
 		}
 	})
+	// what is encoded is the parsed query itself (keys are only deleted from it), so multi-valued parameters survive
+	var parsed ssa.Value
+	allInstrs(filt, func(in ssa.Instruction) {
+		if call, ok := in.(*ssa.Call); ok && isFuncNamed(call.Call.StaticCallee(), "net/url", "ParseQuery") {
+			for _, ref := range *call.Referrers() {
+				if ex, ok := ref.(*ssa.Extract); ok && ex.Index == 0 {
+					parsed = ex
+				}
+			}
+		}
+	})
+	allInstrs(filt, func(in ssa.Instruction) {
+		if call, ok := in.(*ssa.Call); ok && isMethodNamed(call.Call.StaticCallee(), "net/url", "Values", "Encode") {
+			if parsed != nil && call.Call.Args[0] == parsed {
+				r.ok("filterOutHLSParams|encodes-parsed-query", c.Pos(call.Pos()), FuncName(filt), "the re-encoded query is the parsed query minus the deleted keys", "Encode() on the ParseQuery result")
+			} else {
+				r.fail("filterOutHLSParams|encodes-parsed-query", c.Pos(call.Pos()), FuncName(filt), "the re-encoded query is the parsed query minus the deleted keys", "another url.Values is encoded: rebuilding the query (Get/Set) loses repeated parameters")
+			}
+		}
+	})
 	if okPrefix {
 		r.ok("filterOutHLSParams|prefix", c.Pos(filt.Pos()), FuncName(filt), "the filter drops keys with the _HLS_ prefix", "HasPrefix(k, \"_HLS_\")")
 	} else {
